@@ -41,13 +41,13 @@ def gen_cases(tier, seed):
     cases = []
     for i, (nodes, edges) in enumerate(CORPUS):
         cases.append({"kind": "random", "spec": gen.spec(nodes, edges), "rs": f"C14:corpus:{seed}:{i}", "n": 300 if tier == "quick" else 3000, "maxlen": 30})
-    n = 160 if tier == "quick" else 1200
+    n = 160 if tier == "quick" else 8000
     for i in range(n):
         rng = gen.rng_for("C14", seed, i)
         nodes, edges = gen.cyc_any(rng, 12)
         cases.append({"kind": "random", "spec": gen.spec(nodes, edges), "rs": f"C14:{seed}:{i}", "n": 120 if tier == "quick" else 400, "maxlen": rng.choice([6, 12, 25])})
     # exhaustive Euler vectors with a cap
-    m = 25 if tier == "quick" else 260
+    m = 25 if tier == "quick" else 2000
     for i in range(m):
         rng = gen.rng_for("C14e", seed, i)
         nodes, edges = gen.cyc_any(rng, 8 if tier == "quick" else 9)
